@@ -603,6 +603,50 @@ def c04_work(item, ctx):
                     return res
             res.nt("sdoid", nid_)
             return res
+        if kind == "sdoid-stored":
+            # the server's COB-IDs live in a parameter group: after 'save' and a power cycle (and after a reset communication) the server
+            # is enabled with what 1200h:1/2 say - the values a client reads there - not with the compile-time ones
+            sim.close()
+            nid_ = rng.choice([1, 2, 60, 100])
+            cfg = S.Config(nodeid=nid_, freq=1000, tmrnum=8)
+            gen.add_mandatory(cfg, ssdo=0)
+            ram = (0x600).to_bytes(4, "little") + (0x580).to_bytes(4, "little")
+            cfg.paras.append((0, 0, 8, 2, 1, False, ram, None))
+            cfg.add(S.var(0x1200, 0, S.D | S.R, 1, 2))
+            cfg.add(S.Obj(0x1200, 1, S.N | S.RW, "sdoid", "G", 0, 0, 4))
+            cfg.add(S.Obj(0x1200, 2, S.N | S.RW, "sdoid", "G", 0, 4, 4))
+            cfg.add(S.var(0x1010, 0, S.D | S.R, 1, 1, "parastore"))
+            cfg.add(S.Obj(0x1010, 1, S.RW, "parastore", "P", 0))
+            cfg.add(S.var(0x2000, 0, S.RW, 4, 0x11223344))
+            cfg.nvm = (16, ram + bytes([0xFF]) * 8)
+            cfg.finalize()
+            sim = S.Sim(exe, cfg)
+            off = rng.choice([0x10, 0x20, 0x15])
+            rq0, rs0, rq1, rs1 = 0x600 + nid_, 0x580 + nid_, 0x600 + nid_ + off, 0x580 + nid_ + off
+            def answered(rid):
+                evs_ = sim.rx(rid, bytes([0x40, 0x00, 0x20, 0x00, 0, 0, 0, 0]))
+                return [cid for (t, cid, dlc, d, f) in S.txs(evs_)]
+            if answered(rq0) != [rs0]:
+                res.inconclusive.append("sdoid-stored: server does not answer at the start"); return res
+            # re-configure: invalidate through the server itself, the rest through the dictionary API (the server is off then), store
+            code, _ = S.sdo_write(sim, nid_, 0x1200, 1, 0x80000000 | rq0, 4)
+            steps = [sim.ret("wr 1200 2 4 %x" % (0x80000000 | rs0)), sim.ret("wr 1200 2 4 %x" % rs1), sim.ret("wr 1200 1 4 %x" % rq1), sim.ret("wr 1010 1 4 65766173")]
+            if code is not None or any(r_[0] != "0" for r_ in steps):
+                res.inconclusive.append("sdoid-stored: set-up refused %r %r" % (code, steps)); return res
+            for phase in ("after the re-configuration", "after the power cycle", "after reset communication"):
+                if phase == "after the power cycle":
+                    sim.cmd("restart"); sim.cmd("start")
+                elif phase == "after reset communication":
+                    sim.rx(0, bytes([130, nid_]))
+                back = (int(sim.ret("rd 1200 1 4")[1], 16), int(sim.ret("rd 1200 2 4")[1], 16))
+                got = (answered(rq1), answered(rq0))
+                res.evals += 1
+                if back != (rq1, rs1) or got != ([rs1], []):
+                    res.violation("c04/sdo-id/stored", "%s 1200h:1/2 read %x / %x (stored: %x / %x); requests on %x / %x are answered on %r / %r, reference [%x] / []" % (
+                        phase, back[0], back[1], rq1, rs1, rq1, rq0, ["%x" % c for c in got[0]], ["%x" % c for c in got[1]], rs1), sim=sim)
+                    return res
+            res.nt("sdoid-stored", nid_, off)
+            return res
         if kind == "index":
             _, lo, hi, subs = item
             c04_sweep_indices(res, run, world, lo, hi, subs)
@@ -769,6 +813,7 @@ def configure(m, prop):
             items += [("toggle", i, 30 if q else 200) for i in range(8 if q else 32)]
             items += [("nodeid", i, 0) for i in range(4)]
             items += [("sdoid", i, 0) for i in range(4)]
+            items += [("sdoid-stored", i, 0) for i in range(4)]
             items += [("rejected", i, 0) for i in range(2)]
             return items
         m.plan = plan
